@@ -1,5 +1,6 @@
 import Driver.Proto
 import LadimModel.Release.Dates
+import LadimModel.Release.Iso
 import LadimModel.Release.Attr
 import LadimModel.Release.Sample
 import LadimModel.Release.Table
@@ -11,6 +12,11 @@ def hDatesRange : Handler := do
   let perSec ← getI; let start ← getI; let stop ← getI; let num ← getN
   let r := Dates.dateRange Dates.divisor perSec start stop num
   pure (outList (fun o => match o with | some t => toString t | none => "NaT") r)
+
+/-- `dates.render n secs*` -> the ISO strings (`np.datetime64(secs, 's').astype(str)`) -/
+def hDatesRender : Handler := do
+  let ts ← getList getI
+  pure (outList (fun t => Dates.renderISO t) ts)
 
 def getSpec : P (Attr.Spec Float) := do
   let k ← getN
@@ -122,6 +128,6 @@ def hTableValidate : Handler := do
   | some bad => pure (" ".intercalate ("rejected" :: bad.map (fun m => s!"{m.1}:" ++ ",".intercalate m.2)))
 
 def releaseHandlers : List (String × Handler) :=
-  [("dates.range", hDatesRange), ("attr.get", hAttrGet), ("sample.points", hSamplePoints), ("sample.areas", hSampleAreas), ("table.make", hTableMake), ("table.validate", hTableValidate)]
+  [("dates.range", hDatesRange), ("dates.render", hDatesRender), ("attr.get", hAttrGet), ("sample.points", hSamplePoints), ("sample.areas", hSampleAreas), ("table.make", hTableMake), ("table.validate", hTableValidate)]
 
 end Driver
